@@ -5,14 +5,22 @@
    `Props/C06.lean` (finite core item space, termination of the core recogniser, the verdict for the generated
    policy, the machine-checked divergence witness) is built and audited.
 2. tie: every generated (grammar, start, input) is parsed by the real parser in a worker process under a step
-   meter (`Column.add`, `IterativeParser.complete` counted) and a hard alarm.  The model (`drv_earley`) gets the
+   meter (`Column.add`, `IterativeParser.complete`, `ParseState()` counted).  Caps are counted in *steps*; the
+   wall-clock alarm is a generous backstop whose expiry is never a verdict by itself (re-run alone; stalled meter =
+   a loop outside the metered operations = violation, growing meter = machinery error).  The model (`drv_earley`) gets the
    same grammar, the same input, the regex oracle and the order in which `predict` added alternatives, and must
    (a) finish with the core policy within the proved bound, (b) with the generated policy admit *the same states
    per column* (core item + number of children, as multisets) and yield the same forest.
 3. the property on the real code: forest request, first-tree request and prefix request must all come back
    before the cap.  A divergence inside the model's class `hasEpsCycle` (some nonterminal derives itself over the
    same span: nullable body under `*`/`+`, nullable right recursion, unit cycles) is the known finding
-   `C06/nullable-under-unbounded-repetition`; a divergence outside it is a violation.
+   `C06/nullable-under-unbounded-repetition`; a prefix request that diverges inside `prefix_cycle` (a nonterminal
+   reaches itself through the states the INCOMPLETE end-of-input loop force-completes: left recursion, a body that
+   starts with an empty-deriving nonterminal under a repetition) is `C06/prefix-completion-cycle`; a divergence
+   outside these classes is a violation.  Once the source carries the covering cut (translator: policy `acyclic`)
+   no class is excused any more.
+4. fuzzing steps that parse internally (generator output parsed under its nonterminal; equality repair parsing the
+   wanted value) run under the same meter on cyclic and acyclic grammars.
 """
 from __future__ import annotations
 
@@ -23,12 +31,13 @@ from typing import Any, Optional
 from harness import translate_earley
 from harness.common import VERIF, MachineryError, Run, driver_ask, lean_check, use_repo
 from harness.gen import earley_cases as gen
+from harness.impl import c06_fuzz
 from harness.impl import earley_io as eio
 from harness.impl import grammar_io as gio
 
 PID = "C06"
 SIG_KNOWN = "C06/nullable-under-unbounded-repetition"
-SIG_PREFIX = "C06/left-recursion-in-prefix-mode"
+SIG_PREFIX = "C06/prefix-completion-cycle"
 CORPUS = VERIF / "corpus" / "C06"
 
 TRUSTED = [
@@ -40,7 +49,9 @@ TRUSTED = [
     "CPython `re.match` as the greedy regex-length oracle; the iteration order of the Python sets `predict` builds is "
     "recorded from the real run and passed to the model (every theorem holds for all orders)",
     "prefix (INCOMPLETE) mode, incomplete states, computed repetitions are not modelled: prefix / first-tree requests are "
-    "only observed under the meter and the cap",
+    "only observed under the step meter; the prefix divergence class `prefix_cycle` is computed by the harness (Python) "
+    "from the real compiled rule table",
+    "step meter = monkeypatched Column.add / IterativeParser.complete / ParseState.__init__ (wrappers only)",
 ]
 
 
@@ -48,13 +59,13 @@ TRUSTED = [
 # cases
 # ------------------------------------------------------------------------------------------------
 
-def make_tasks(run: Run, tier: str) -> list[dict]:
+def make_tasks(run: Run, tier: str, policy: str):
     rng = run.rng("cases")
     quick = tier == "quick"
     n_grammars = 110 if quick else 1400
     per = 4 if quick else 8
     max_cells = 6 if quick else 10
-    cap_s = 3.0 if quick else 6.0
+    cap_s = 40.0 if quick else 90.0          # wall-clock backstop only; the cap that counts is `step_limit`
     grammars: list[dict] = []
 
     def add(spec: str, mode: str, tags: set, origin: str, words: Optional[list] = None):
@@ -103,9 +114,12 @@ def make_tasks(run: Run, tier: str) -> list[dict]:
             ins = ins[:2]
         for w, worigin in ins:
             tasks.append({"id": len(tasks), "spec": g["spec"], "start": start, "word": eio.word_json(w),
-                          "cap_s": 1.5 if eps else cap_s, "max_trees": 300, "modes": True, "eps_pre": eps,
+                          "cap_s": 12.0 if eps and policy == "impl" else cap_s,
+                          "step_limit": STEP_LIMIT_EPS if eps and policy == "impl" else STEP_LIMIT,
+                          "max_trees": 300, "modes": True, "eps_pre": eps,
                           "tags": sorted(g["tags"]) + [g["origin"], "in:" + worigin, "mode:" + g["mode"]]})
-    return tasks
+    run.coverage["grammars"] = len(grammars)
+    return tasks, grammars
 
 
 # ------------------------------------------------------------------------------------------------
@@ -113,6 +127,55 @@ def make_tasks(run: Run, tier: str) -> list[dict]:
 # ------------------------------------------------------------------------------------------------
 
 BIG_FUEL = 4_000_000
+# steps = Column.add + IterativeParser.complete calls.  The inputs have at most 10 cells (81 columns); the largest
+# honest parse the generators produce needs ~25 000 steps (exponential-but-finite ambiguity under `{n,}`), the
+# typical one < 500.  A request over the limit is re-judged with the model and a 10x limit before it is reported.
+STEP_LIMIT = 60_000
+STEP_LIMIT_EPS = 5_000       # inside hasEpsCycle the divergence is expected while F9 is open: observe it cheaply
+FUZZ_STEP_LIMIT = 250_000     # a whole evolution run (dozens of internal parses)
+BAD = ("timeout", "killed", "steplimit", "exc:RecursionError")
+
+
+def prefix_cycle(rules: dict) -> bool:
+    """the divergence class of prefix (INCOMPLETE) requests, from the real compiled rule table
+    {nt: [[sym…]…]}: at the end of the input every state with children is completed as if it were finished.
+    Z = symbols that can be passed over without input there: empty-deriving ones and nonterminals with a rule
+    whose first symbol is in Z (force-completed after that symbol).  Edge x -> y when `x ::= α y …` with α ⊆ Z.
+    A cycle = a nonterminal wrapped into itself over the same span, round after round."""
+    def lit_empty(sym):
+        return sym[0] == "lit" and sym[1][0] in ("t", "b") and len(sym[1][1]) == 0
+    z: set[str] = set()
+    changed = True
+    while changed:
+        changed = False
+        for nt, alts in rules.items():
+            if nt in z:
+                continue
+            for rhs in alts:
+                def ok(sym):
+                    return lit_empty(sym) or (sym[0] == "nt" and sym[1] in z)
+                if all(ok(x) for x in rhs) or (rhs and ok(rhs[0])):
+                    z.add(nt)
+                    changed = True
+                    break
+    edges: dict[str, set[str]] = {}
+    for nt, alts in rules.items():
+        for rhs in alts:
+            for sym in rhs:
+                if sym[0] == "nt":
+                    edges.setdefault(nt, set()).add(sym[1])
+                if not (lit_empty(sym) or (sym[0] == "nt" and sym[1] in z)):
+                    break
+    for x in edges:
+        seen, todo = set(), list(edges[x])
+        while todo:
+            y = todo.pop()
+            if y == x:
+                return True
+            if y not in seen:
+                seen.add(y)
+                todo.extend(edges.get(y, ()))
+    return False
 
 
 def model_runs(reals: list[dict], tasks: list[dict], policy: str) -> tuple[list[Optional[dict]], list[Optional[dict]]]:
@@ -130,7 +193,7 @@ def model_runs(reals: list[dict], tasks: list[dict], policy: str) -> tuple[list[
             fuel = 40 * (m.get("adds", 0) + m.get("completes", 0)) + 5000
             if m.get("adds", 0) > 6000:
                 continue                      # too big for the list-based model: counted, not compared
-        elif st in ("timeout", "killed", "exc:RecursionError") and (policy != "impl" or not t.get("eps_pre")):
+        elif st in BAD and (policy != "impl" or not t.get("eps_pre")):
             fuel = 20000
         else:
             continue
@@ -147,24 +210,36 @@ def model_runs(reals: list[dict], tasks: list[dict], policy: str) -> tuple[list[
 def diverged(r: dict) -> Optional[str]:
     """which request of the real parser did not come back — or came back only because the interpreter's stack
     overflowed while an infinite forest of ever deeper trees was being enumerated (`RecursionError`)"""
-    bad = ("timeout", "killed", "exc:RecursionError")
-    if r["status"] in bad:
+    if r["status"] in BAD:
         return "forest"
     modes = r.get("modes") or {}
     for name in ("first", "prefix"):
-        if modes.get(name) in bad:
+        if modes.get(name) in BAD:
             return name
     return None
+
+
+def wallclock_only(r: dict, which: str) -> bool:
+    st = r["status"] if which == "forest" else (r.get("modes") or {}).get(which, "")
+    return st in ("timeout", "killed")
+
+
+def steps_of(r: dict, which: str) -> int:
+    if which == "forest":
+        m = r.get("meter") or {}
+        return int(m.get("adds", 0)) + int(m.get("completes", 0))
+    return int((r.get("modes") or {}).get(which + "_steps", 0))
 
 
 def how_of(r: dict, which: str) -> str:
     st = r["status"] if which == "forest" else (r.get("modes") or {}).get(which, "")
     return "stack overflow (RecursionError) while enumerating ever deeper trees" if st == "exc:RecursionError" \
-        else "no answer within the cap"
+        else "step limit exceeded" if st == "steplimit" else "no answer within the wall-clock backstop"
 
 
 def replay_dict(t: dict, extra: Optional[dict] = None) -> dict:
-    d = {"spec": t["spec"], "start": t["start"], "word": t["word"], "cap_s": max(10.0, t.get("cap_s", 5.0))}
+    d = {"spec": t["spec"], "start": t["start"], "word": t["word"], "cap_s": max(60.0, t.get("cap_s", 5.0)),
+         "step_limit": t.get("step_limit", STEP_LIMIT)}
     if extra:
         d.update(extra)
     return d
@@ -195,8 +270,51 @@ def shrink(t: dict, still_fails) -> dict:
     return best
 
 
+def known(run: Run, sig: str, what: str, replay: dict) -> None:
+    """a hit inside a class whose divergence is a listed finding: the first three per signature are printed
+    (KNOWN-FINDING while the entry is open, VIOLATION otherwise), the rest only counted"""
+    run.count("hit:" + sig)
+    if run.counters["hit:" + sig] <= 3 or not any(k.get("signature") == sig for k in run.known):
+        run.report(sig, what, replay)
+
+
+def rerun_alone(run: Run, t: dict, which: str) -> str:
+    """a request stopped by the wall-clock backstop (not by the step limit) is run again, alone, twice with
+    different backstops: 'returned' | 'steplimit …' (a step verdict after all) | 'stalled …' (the meter does not
+    move between the two: a loop outside the metered operations) | 'undecided' (slow but moving: machinery)"""
+    outs = []
+    for cap in (45.0, 90.0):
+        rr = eio.run_pool([{**t, "modes": True, "cap_s": cap}], workers=1, backstop_s=120.0)[0]
+        if "grammar" not in rr:
+            return "undecided"
+        w = diverged(rr)
+        if w is None:
+            return "returned"
+        if not wallclock_only(rr, w):
+            return f"{how_of(rr, w)} at {steps_of(rr, w)} steps"
+        outs.append(steps_of(rr, w))
+    if len(outs) == 2 and outs[0] == outs[1]:
+        return f"stalled at {outs[0]} steps after 45 s and after 90 s (a loop outside the metered operations)"
+    return "undecided"
+
+
+def judge_unbounded(run: Run, items: list) -> None:
+    """more than `max_trees` trees outside the expected classes: infinite forest, or a large finite one?  Asked
+    again with a 20x tree budget under the step limit."""
+    for t, which in items[:12]:
+        rr = eio.run_pool([{**t, "modes": True, "max_trees": 20 * int(t["max_trees"]), "cap_s": 240.0}], workers=1,
+                          backstop_s=120.0)[0]
+        st = rr.get("status") if which == "forest" else (rr.get("modes") or {}).get("prefix")
+        if st in ("truncated", "steplimit", "exc:RecursionError"):
+            run.report("C06/unbounded-forest", f"{which} request yields more than {20 * int(t['max_trees'])} trees "
+                       f"({st}) outside the expected classes: input {eio.word_of(t['word'])!r} grammar "
+                       f"{t['spec'].strip()!r}", replay_dict(t, {"class": "outside", "mode": which + "-unbounded"}))
+        else:
+            run.count("unbounded:large_finite_forest")
+
+
 def judge(run: Run, tasks: list[dict], reals: list[dict], core: list, pol: list, policy: str,
-          corr_failures: list, info: dict) -> None:
+          corr_failures: list, info: dict, undecided: list, unbounded_outside: list) -> None:
     # which divergences the *code as it is* is expected to show (from the translated policy): with the acyclic cut
     # in place a request that does not come back inside a class is an ambiguity explosion like anywhere else
     eps_expected = policy == "impl"
@@ -225,51 +343,69 @@ def judge(run: Run, tasks: list[dict], reals: list[dict], core: list, pol: list,
             corr_failures.append({"case": replay_dict(t), "what": "model core policy did not finish within the fuel",
                                   "steps": mc["steps"]})
         # (3) the property on the real code
+        pcyc = prefix_cycle(r.get("rules") or {})
+        if pcyc:
+            run.count("class:prefix_cycle")
         which = diverged(r)
         if which is not None:
             run.count("diverged:" + which)
-            what = (f"{which} request: {how_of(r, which)} ({t['cap_s']} s): start {t['start']} input "
-                    f"{eio.word_of(t['word'])!r} grammar {t['spec'].strip()!r}; states admitted so far: "
-                    f"{r.get('meter', {}).get('admitted')}")
-            if eps and eps_expected:
-                run.report(SIG_KNOWN, what, replay_dict(t, {"class": "hasEpsCycle"}))
-            elif which == "prefix" and mc.get("leftcycle") and left_expected:
-                run.report(SIG_PREFIX, what, replay_dict(t, {"class": "hasLeftCycle", "mode": "prefix"}))
-            else:
-                # outside the expected classes a request that does not come back within the cap is either a genuine
-                # divergence or an ambiguity explosion (finite, exponential: e.g. a body that is nullable in two ways
-                # under `{1,}` = 20 nested copies).  Waiting cannot tell them apart; the model can: if the model with
-                # the code's admission policy finishes (forest / first tree) the real parser has no reason not to.
-                # Prefix mode is not modelled: a prefix request outside the expected class is counted, not judged.
-                model_finishes = mp is not None and mp["status"] in ("done", "raised")
-                if which == "prefix" or not model_finishes or "RecursionError" in how_of(r, which):
-                    run.count("undecided:" + which + "_explosion_outside_class")
+            what = (f"{which} request: {how_of(r, which)} (limit {t.get('step_limit')} steps): start {t['start']} input "
+                    f"{eio.word_of(t['word'])!r} grammar {t['spec'].strip()!r}; steps so far: {steps_of(r, which)}")
+            expected = (eps and eps_expected) or (which == "prefix" and pcyc and left_expected)
+            if wallclock_only(r, which) and not expected:
+                # seconds are not a verdict: decided below by re-running alone (inside a class whose divergence is a
+                # listed finding nothing hinges on telling slow from endless: no verdict is drawn from it)
+                verdict = rerun_alone(run, t, which)
+                if verdict == "returned":
+                    run.count("wallclock:returned_when_alone")
                     continue
+                if verdict == "undecided":
+                    undecided.append(what)
+                    continue
+                what += f" — re-run alone: {verdict}"
+            if eps and eps_expected:
+                known(run, SIG_KNOWN, what, replay_dict(t, {"class": "hasEpsCycle"}))
+            elif which == "prefix" and pcyc and left_expected:
+                known(run, SIG_PREFIX, what, replay_dict(t, {"class": "prefix_cycle", "mode": "prefix"}))
+            else:
+                # outside the expected classes a request over the step limit is either a genuine divergence or an
+                # ambiguity explosion (finite, exponential: e.g. a body that is nullable in two ways under `{1,}` = 20
+                # nested copies).  Decided by a 10x limit on the real code, and for forest / first-tree requests by the
+                # model run with the code's admission policy.
+                big = {**t, "modes": True, "step_limit": 10 * int(t.get("step_limit") or STEP_LIMIT), "cap_s": 240.0}
 
                 def still(c):
-                    rr = eio.run_pool([{**c, "modes": True, "cap_s": 6.0}], workers=1)[0]
-                    return "grammar" in rr and diverged(rr) == which
+                    rr = eio.run_pool([{**big, "spec": c["spec"], "word": c["word"]}], workers=1, backstop_s=120.0)[0]
+                    return "grammar" in rr and diverged(rr) == which and not wallclock_only(rr, which)
                 if not still(t):
-                    run.count("diverged:not_reproduced_with_longer_cap")
+                    run.count("diverged:finite_explosion_or_not_reproduced_with_10x_limit")
                     continue
                 small = shrink(t, still)
-                run.report("C06/divergence", what + " — outside the model's classes (hasEpsCycle / hasLeftCycle); the "
-                           "model with the same admission policy finishes", 
-                           replay_dict(small, {"class": "acyclic", "original": replay_dict(t)}))
+                run.report("C06/divergence", what + " — outside the expected classes (hasEpsCycle / prefix_cycle), "
+                           "still over a 10x step limit", replay_dict(small, {"class": "outside", "original": replay_dict(t)}))
             continue
         pst = (r.get("modes") or {}).get("prefix")
-        if pst == "truncated" and mc.get("leftcycle") and not eps and left_expected:
-            run.count("prefix:truncated_in_class")
-            run.report(SIG_PREFIX, f"prefix request yields more than {t['max_trees']} trees of an infinite forest: input "
-                       f"{eio.word_of(t['word'])!r} grammar {t['spec'].strip()!r}",
-                       replay_dict(t, {"class": "hasLeftCycle", "mode": "prefix-unbounded"}))
+        if pst == "truncated":
+            run.count("prefix:truncated")
+            if eps and eps_expected:
+                known(run, SIG_KNOWN, f"prefix request yields more than {t['max_trees']} trees of an infinite forest: "
+                           f"input {eio.word_of(t['word'])!r} grammar {t['spec'].strip()!r}",
+                           replay_dict(t, {"class": "hasEpsCycle", "mode": "prefix-unbounded"}))
+            elif pcyc and left_expected:
+                known(run, SIG_PREFIX, f"prefix request yields more than {t['max_trees']} trees of an infinite forest: "
+                           f"input {eio.word_of(t['word'])!r} grammar {t['spec'].strip()!r}",
+                           replay_dict(t, {"class": "prefix_cycle", "mode": "prefix-unbounded"}))
+            else:
+                unbounded_outside.append((t, "prefix"))
         if st == "truncated":
             run.count("forest:truncated")
             if eps and eps_expected:
                 # the forest generator keeps yielding: the whole-forest request never ends
-                run.report(SIG_KNOWN, f"whole-forest request yields more than {t['max_trees']} trees of an infinite "
+                known(run, SIG_KNOWN, f"whole-forest request yields more than {t['max_trees']} trees of an infinite "
                            f"forest: input {eio.word_of(t['word'])!r} grammar {t['spec'].strip()!r}",
                            replay_dict(t, {"class": "hasEpsCycle", "mode": "forest-unbounded"}))
+            else:
+                unbounded_outside.append((t, "forest"))
             continue
         if not (st == "ok" or st.startswith("exc:")):
             continue
@@ -316,12 +452,21 @@ def judge(run: Run, tasks: list[dict], reals: list[dict], core: list, pol: list,
 def known_reproducer(run: Run, policy: str) -> None:
     """the design's witness, replayed on the implementation on every run"""
     t = {"id": "G0", "spec": '<start> ::= ("a"?)* "b"\n', "start": "<start>", "word": eio.word_json("ab"),
-         "cap_s": 4.0, "max_trees": 50, "modes": False, "tags": []}
+         "cap_s": 120.0, "step_limit": STEP_LIMIT_EPS, "max_trees": 50, "modes": False, "tags": []}
     r = eio.run_pool([t], workers=1)[0]
     run.coverage["witness_G0"] = {"status": r["status"], "meter": r.get("meter")}
-    if r["status"] in ("timeout", "killed"):
+    if r["status"] == "steplimit":
         run.report(SIG_KNOWN, 'witness of Props/C06.lean: <start> ::= ("a"?)* "b", parse("ab") does not return; '
-                   f"{r.get('meter', {}).get('admitted')} states admitted when stopped", replay_dict(t, {"class": "hasEpsCycle"}))
+                   f"{r.get('meter', {}).get('admitted')} states admitted when stopped at {STEP_LIMIT_EPS} steps "
+                   "(the model with the generated policy admits 25 states under the cut policy, and diverges likewise "
+                   "under policy impl)", replay_dict(t, {"class": "hasEpsCycle"}))
+    elif r["status"] != "ok":
+        raise MachineryError(f"witness run: {r['status']}")
+    elif policy == "impl":
+        # the source still has the diverging admission rule (translator) but the witness returns: the model and
+        # the code disagree about the very example the divergence theorem is about
+        run.report("C06/witness-disagrees", "Generated policy is `impl` (the Lean witness diverges) but the real parser "
+                   'returns on <start> ::= ("a"?)* "b" / "ab"', replay_dict(t), no_input=True)
 
 
 # ------------------------------------------------------------------------------------------------
@@ -334,14 +479,87 @@ def replay(path: str) -> int:
     if "spec" not in rp:
         print("replay: no concrete input in this file (", rp.get("what", "")[:300], ")")
         return 1
+    if rp.get("fuzz"):
+        ft = {"id": 0, "spec": rp["spec"], "constraints": rp.get("constraints"), "seed": rp.get("seed", 0),
+              "step_limit": int(rp.get("step_limit", FUZZ_STEP_LIMIT)), "cap_s": 600.0}
+        fr = eio.run_pool([ft], workers=1, backstop_s=120.0, fn=c06_fuzz.fuzz_case)[0]
+        print("fuzz:", rp["spec"].strip().replace("\n", " ; "), "| constraints", rp.get("constraints"))
+        print("real:", fr.get("status"), fr.get("meter"))
+        bad = fr.get("status") in BAD
+        print("replay:", "property violated (the fuzz run does not finish its internal parse)" if bad
+              else "no violation on the current tree")
+        return 1 if bad else 0
     t = {"id": 0, "spec": rp["spec"], "start": rp.get("start", "<start>"), "word": rp["word"],
-         "cap_s": float(rp.get("cap_s", 10.0)), "max_trees": 300, "modes": True}
-    r = eio.run_pool([t], workers=1)[0]
+         "cap_s": float(rp.get("cap_s", 120.0)), "step_limit": int(rp.get("step_limit", STEP_LIMIT)),
+         "max_trees": 300 * (20 if str(rp.get("mode", "")).endswith("-unbounded") else 1), "modes": True}
+    r = eio.run_pool([t], workers=1, backstop_s=120.0)[0]
     print("grammar:", rp["spec"].strip().replace("\n", " ; "), "| start", t["start"], "| input", repr(eio.word_of(t["word"])))
     print("real:", r["status"], r.get("meter"), r.get("modes"))
-    bad = ("grammar" in r and diverged(r) is not None) or (r["status"] == "truncated" and rp.get("mode") == "forest-unbounded")
+    bad = ("grammar" in r and diverged(r) is not None) or (r["status"] == "truncated" and rp.get("mode") == "forest-unbounded") \
+        or ((r.get("modes") or {}).get("prefix") == "truncated" and rp.get("mode") == "prefix-unbounded")
     print("replay:", "property violated (a parse request does not return)" if bad else "no violation on the current tree")
     return 1 if bad else 0
+
+
+def fuzz_tasks(run: Run, tier: str, grammars: list[dict], comp_eps: dict, policy: str) -> list[dict]:
+    """generator-defined and equality-repaired variants of text grammars: `<start>` is renamed to `<c06g>`; the
+    wanted word is one the grammar derives (IR deriver), so the internal parse has something to find"""
+    rng = run.rng("fuzz")
+    quick = tier == "quick"
+    want = 16 if quick else 120
+    pool = [g for g in grammars if g["mode"] == "text" and " := " not in g["spec"] and "where" not in g["spec"]]
+    hand = [g for g in pool if g["origin"] == "handwritten"]
+    rest = [g for g in pool if g["origin"] != "handwritten"]
+    rng.shuffle(rest)
+    out: list[dict] = []
+    for g in hand + rest:
+        if len(out) >= 2 * want:
+            break
+        words = gen.ir_words(g["gj"], g["regexes"].patterns, "<start>", rng, 2, False, 5)
+        words = [w for w in words if w and all(32 <= ord(c) < 127 and c not in '"\\' for c in w)]
+        if not words:
+            continue
+        w = words[0]
+        lines = [ln for ln in g["spec"].replace("<start>", "<c06g>").splitlines() if ln.strip()]
+        eps = comp_eps.get(g["spec"], False)
+        limit = 20_000 if eps and policy == "impl" else FUZZ_STEP_LIMIT
+        base = {"cap_s": 30.0 if quick else 60.0, "step_limit": limit, "eps": eps, "word": w, "origin": g["origin"],
+                "seed": rng.randrange(1 << 30)}
+        gen_lines = [ln + f' := "{w}"' if ln.startswith("<c06g> ::=") else ln for ln in lines]
+        out.append({**base, "id": len(out), "kind": "generator",
+                    "spec": "<start> ::= <c06g>\n" + "\n".join(gen_lines) + "\n", "constraints": None})
+        out.append({**base, "id": len(out), "kind": "equality_repair",
+                    "spec": '<start> ::= <c06g> "!"\n' + "\n".join(lines) + "\n", "constraints": [f'<c06g> == "{w}"']})
+    return out
+
+
+def judge_fuzz(run: Run, ftasks: list[dict], fres: list[dict], policy: str, undecided: list) -> None:
+    for t, r in zip(ftasks, fres):
+        st = r.get("status", "killed")
+        run.count("fuzz:" + t["kind"])
+        run.count("fuzz_status:" + (st if not st.startswith("exc:") or st == "exc:RecursionError" else "exc:other"))
+        run.case(["fuzz", t["spec"], t["constraints"]], st == "ok" and (r.get("meter") or {}).get("adds", 0) > 0,
+                 {"fuzz": t["kind"], "spec": t["spec"], "constraints": t["constraints"], "status": st, "meter": r.get("meter")})
+        if st not in BAD:
+            continue
+        what = (f"fuzz run ({t['kind']}: the value {t['word']!r} is parsed under <c06g> internally) does not finish: {st} "
+                f"(limit {t['step_limit']} steps, meter {r.get('meter')}): {t['spec'].strip()!r} constraints {t['constraints']}")
+        rp = {"fuzz": True, "kind": t["kind"], "spec": t["spec"], "constraints": t["constraints"], "seed": t["seed"],
+              "step_limit": t["step_limit"], "word": t["word"]}
+        if st in ("timeout", "killed"):
+            # the wall-clock backstop, with the parser's step meter below its limit: the time went elsewhere
+            # (budgeted expansion of a recursive grammar, evolution) — not a parse that fails to return
+            run.count("fuzz:backstop_with_meter_below_limit")
+            continue
+        if t["eps"] and policy == "impl":
+            known(run, SIG_KNOWN, what, {**rp, "class": "hasEpsCycle"})
+            continue
+        rr = eio.run_pool([{**t, "step_limit": 10 * t["step_limit"], "cap_s": 600.0}], workers=1, backstop_s=120.0,
+                          fn=c06_fuzz.fuzz_case)[0]
+        if rr.get("status") in ("steplimit", "exc:RecursionError"):
+            run.report("C06/divergence-in-fuzz", what + " — outside hasEpsCycle, still over a 10x step limit", rp)
+        else:
+            run.count("fuzz:finished_with_10x_limit")
 
 
 def main(tier: str) -> int:
@@ -354,11 +572,26 @@ def main(tier: str) -> int:
     policy = info["policy"] or "impl"
     run.coverage["generated_policy"] = info
     corr_failures: list = []
+    undecided: list = []
+    unbounded_outside: list = []
     known_reproducer(run, policy)
-    tasks = make_tasks(run, tier)
-    reals = eio.run_pool(tasks, workers=16)
+    tasks, grammars = make_tasks(run, tier, policy)
+    reals = eio.run_pool(tasks, workers=14, backstop_s=120.0)
     core, pol = model_runs(reals, tasks, policy)
-    judge(run, tasks, reals, core, pol, policy, corr_failures, info)
+    judge(run, tasks, reals, core, pol, policy, corr_failures, info, undecided, unbounded_outside)
+    judge_unbounded(run, unbounded_outside)
+    run.coverage["t_parse_phase_s"] = round(run.budget_left(0) * -1, 1)
+    comp_eps = {}
+    for t, mc in zip(tasks, core):
+        if mc is not None:
+            comp_eps[t["spec"]] = bool(mc["epscycle"])
+    ftasks = fuzz_tasks(run, tier, grammars, comp_eps, policy)
+    fres = eio.run_pool(ftasks, workers=14, backstop_s=120.0, fn=c06_fuzz.fuzz_case)
+    judge_fuzz(run, ftasks, fres, policy, undecided)
+    run.coverage["undecided_wallclock"] = undecided[:5]
+    if undecided:
+        raise MachineryError(f"{len(undecided)} requests stopped by the wall-clock backstop with a moving meter "
+                             f"(machine overloaded?): {undecided[0][:300]}")
     # the verdict theorem says "diverges" for policy impl: that IS the property being false; it is reported through
     # the witness above (known finding while listed).  A refused translation or a broken build is a broken obligation.
     run.coverage["traces_validated_against_impl"] = run.counters.get("corr:equal", 0) + run.counters.get("corr:raised_equal", 0)
